@@ -7,9 +7,11 @@ the dataclass-generated hashes of the other Value classes)
 `Ty.hashEq a b` models `hash(a) == hash(b)` (no accidental collisions): structural and
 **order-sensitive on unions** (dataclass hash of the `vals` tuple), type-sensitive on literals
 (`hash((type(val), val))`), and *never* equal for two distinct unhashable literals (identity hash;
-the model cannot see object identity, the correspondence builds distinct objects).
-`Ty.beq` (Core/Assign.lean) models `==`, which is order-*in*sensitive on unions.
-`unite_values` de-duplicates through a dict, i.e. with `hashEq ∧ beq`.
+the model cannot see object identity, the correspondence builds distinct objects); the one systematic
+collision (a literal with Python hash 0 against the `TypedValue` of its class) is modelled, see
+Core/Assign.lean. `Ty.beq` (Core/Assign.lean) models `==`, which is order-*in*sensitive on unions.
+`unite_values` de-duplicates through a dict, i.e. with `hashEq ∧ beq` — since hash equality alone
+does not imply `==` (the collision), both conjuncts matter.
 -/
 namespace Pya
 
